@@ -20,6 +20,7 @@ import (
 	"bytes"
 	"encoding/json"
 	"fmt"
+	"io"
 	"regexp"
 	"sort"
 	"strings"
@@ -84,7 +85,7 @@ func c09Signal(ex *fed.WireExchange) string {
 	if err := dec.Decode(&v); err != nil {
 		return "notjson"
 	}
-	if _, err := dec.Token(); err == nil {
+	if _, err := dec.Token(); err != io.EOF {
 		return "notjson" // trailing garbage
 	}
 	arr, ok := v.([]interface{})
@@ -254,7 +255,7 @@ func c09ClassOf(msg string) string {
 
 // c09ModelDecode asks the Lean model what fetch/queryBatch/executeRequests/parseRespones do with one wire answer.
 func c09ModelDecode(ctx *Ctx, ex *fed.WireExchange) (map[string]interface{}, error) {
-	req := map[string]interface{}{"op": "c09.decode", "n": ex.N, "transport": ex.TransportErr != "", "status": ex.Status}
+	req := map[string]interface{}{"op": "c09.decode", "n": ex.N, "transport": ex.TransportErr != "", "status": ex.Status, "url": fed.URL(ex.Service)}
 	child := make([]bool, ex.N)
 	for i := range child {
 		child[i] = i < len(ex.Queries) && isChildQuery(ex.Queries[i])
@@ -278,7 +279,7 @@ func trailing(s string) bool {
 		return false
 	}
 	_, err := dec.Token()
-	return err == nil
+	return err != io.EOF
 }
 
 // ---- one gateway-level case -------------------------------------------------------------------
@@ -448,6 +449,11 @@ func c09Check(ctx *Ctx, pl *fwPool, idx int, cs c09Case, base *c09Base) {
 					if !found {
 						fail("model-mismatch", "", "an error the model forwards to the client is not in the client's errors: "+hx.Canon(w), res.Body, m)
 						return
+					}
+				}
+				for _, mm := range errMessages(want) {
+					if c := c09ClassOf(mm); c != "" {
+						modelClasses[c] = true
 					}
 				}
 			} else {
@@ -729,10 +735,16 @@ func runC09(ctx *Ctx) error {
 	if err := c09UnitRun(ctx, &idx); err != nil {
 		return err
 	}
+	for n := 1; n <= 4; n++ {
+		for k := 0; k <= n+2; k++ {
+			c09CountCheck(ctx, pl, idx, n, k)
+			idx++
+		}
+	}
 	// ---- enumeration over generated federations / operations
-	nOps := 14
+	nOps := 36
 	if ctx.Thorough() {
-		nOps = 150
+		nOps = 400
 	}
 	ops, tries := 0, 0
 	for ops < nOps && tries < nOps*30 {
